@@ -83,6 +83,7 @@ class Observer:
         self.n_sql_before = 0
         self.state: Dict[str, Any] = {}
         self.insert_step: Dict[Tuple[int, int], int] = {}
+        self.ran_step: Dict[Tuple[int, int], int] = {}
 
     def snapshot(self) -> View:
         T = self.w.db.tables
@@ -98,9 +99,11 @@ class Observer:
         self.ans = ans
         self.step += 1
         self.history.append((op, ans))
-        for k in self.cur.jobs:
+        for k, j in self.cur.jobs.items():
             if k not in self.insert_step:
                 self.insert_step[k] = self.step
+            if k not in self.ran_step and j['state'] in ('Creating', 'Running') + TERMINAL:
+                self.ran_step[k] = self.step          # first time the job is seen started or finished
         ws = op.split()
         if ws[0] in ('cancel', 'delete') and ans.startswith('ok'):
             b = int(ws[1])
@@ -221,6 +224,14 @@ def _name_class(obs: Observer, default: str, job: Optional[Tuple[int, int]] = No
         cs = obs.commit_step.get((job[0], v.jobs[job]['update_id']))
         if cs is not None and any(obs.insert_step.get((job[0], p), -1) > cs for p in v.parents.get(job, [])):
             return 'parent-inserted-after-child-update-committed'
+        # the offending job or one of its parents belongs to a non-first update and had already started / finished when that update was
+        # committed: the commit reset it (see above), its completion is then reported a second time and its children are decremented twice
+        for k2 in [job] + [(job[0], p) for p in v.parents.get(job, [])]:
+            j2 = v.jobs.get(k2)
+            if j2 is not None and j2['update_id'] != 1:
+                cs2, rs2 = obs.commit_step.get((k2[0], j2['update_id'])), obs.ran_step.get(k2)
+                if cs2 is not None and rs2 is not None and rs2 < cs2:
+                    return 'commit-resets-job-of-late-committed-update'
     if ws[0] == 'commit' and obs.ans == 'ok 0':
         # the current op commits an update some of whose jobs sit under a group that was cancelled BEFORE this commit: commit_batch_update
         # adds the staged ready counts without looking at cancellation
@@ -830,7 +841,7 @@ def c08_final(obs: Observer):
             ps = v.parents.get(k, [])
             live = [x for x in ps if (k[0], x) in v.jobs and v.jobs[(k[0], x)]['state'] not in TERMINAL and x != k[1]]
             if not live:
-                return ('committed-job-can-never-leave-pending', f'job {k} of a committed update is Pending with n_pending_parents = '
+                return (_name_class(obs, 'committed-job-can-never-leave-pending', k), f'job {k} of a committed update is Pending with n_pending_parents = '
                                                                  f'{j["n_pending_parents"]} and no live parent (parents {ps})')
     return None
 
